@@ -51,6 +51,8 @@ pub enum StoreFault {
     FieldChar { path: String, pointer: String, at: usize, ch: char },
     /// one node of a genuine artifact wrapped into `depth` nested arrays: deep nesting in the
     /// middle of an otherwise ordinary file (whatever precedes it has been scanned normally)
+    /// a source file whose *name* is not valid UTF-8 appears in a package directory ("" = root)
+    NonUtf8Name { dir: String },
     /// a genuine recursive node of an artifact pumped: an object that contains a descendant with
     /// the same keys is nested into itself until the file is `depth` levels deep — deep nesting
     /// that is well-typed for the reader
@@ -188,6 +190,14 @@ fn apply_store_fault(sb: &Sandbox, f: &StoreFault) -> bool {
             *doc.pointer_mut(pointer).unwrap() = Value::String(cs.into_iter().collect());
             sb.write(path, serde_json::to_string_pretty(&doc).unwrap().as_bytes());
             true
+        }
+        StoreFault::NonUtf8Name { dir } => {
+            use std::os::unix::ffi::OsStrExt;
+            let pkg = if dir.is_empty() { "Main" } else { dir.rsplit('/').next().unwrap_or("Main") };
+            let mut full = sb.path(dir).into_bytes();
+            full.extend_from_slice(b"/caf\xe9_zz.gom");
+            let path = std::path::Path::new(std::ffi::OsStr::from_bytes(&full));
+            std::fs::write(path, format!("package {pkg}\n")).is_ok()
         }
         StoreFault::DeepPump { path, pick, depth } => {
             let Some(b) = sb.read(path) else { return false };
@@ -835,6 +845,13 @@ fn check_case(sb: &Sandbox, opts: &Opts, idx: usize, case: &Case, per_op: usize,
                     }
                 }
             }
+            // a file name that is not valid UTF-8, in the root and in a package directory
+            if op.entry == "run" {
+                plans.push(FaultPlan { store: StoreFault::NonUtf8Name { dir: String::new() }, spec: clean_spec.clone() });
+                if let Some(sdir) = sources.iter().filter(|s| s.contains('/')).next() {
+                    plans.push(FaultPlan { store: StoreFault::NonUtf8Name { dir: sdir[..sdir.rfind('/').unwrap_or(0)].to_string() }, spec: clean_spec.clone() });
+                }
+            }
             // symbolic links among the sources (dangling / loop / to a directory)
             if op.entry != "link" {
                 for kind in 0..3u8 {
@@ -942,6 +959,7 @@ fn check_case(sb: &Sandbox, opts: &Opts, idx: usize, case: &Case, per_op: usize,
                     StoreFault::FieldChar { .. } => "stored:header-field-character-replaced",
                     StoreFault::DeepSplice { .. } => "stored:deep-nesting-spliced-into-artifact",
                     StoreFault::DeepPump { .. } => "stored:recursive-node-pumped-beyond-reader-limit",
+                    StoreFault::NonUtf8Name { .. } => "stored:file-name-not-utf8",
                     StoreFault::None => "",
                 };
                 *r.fired.entry(kind.to_string()).or_insert(0) += 1;
